@@ -25,3 +25,27 @@ Theorem C12_layouts_interchangeable_partial : forall w1 w2 rest f1 f2, layout w1
   skip_layout f1 (w1 ++ rest) = skip_layout f2 (w2 ++ rest).
 Proof. exact layouts_interchangeable. Qed.
 Print Assumptions C12_layouts_interchangeable_partial.
+
+(** converse: whatever stands in the input, what `_` consumes is a layout string (whitespace and
+    comments, a last comment possibly closed by the end of the file) and what it leaves is the
+    untouched remainder, which starts with a token byte or is empty: no byte of a token is ever
+    consumed as layout and no layout byte is left in front of a token *)
+Theorem C12_skip_only_layout : forall fuel bs, (length bs <= fuel)%nat ->
+  exists w, layoutE w /\ bs = w ++ skip_layout fuel bs /\ token_start (skip_layout fuel bs).
+Proof. exact skip_only_layout. Qed.
+Print Assumptions C12_skip_only_layout.
+
+(** a file that ends in layout - trailing blank lines, a final comment without a newline - is read to its end *)
+Theorem C12_trailing_layout_consumed : forall w, layoutE w -> forall fuel, (length w <= fuel)%nat -> skip_layout fuel w = [].
+Proof. exact layoutE_absorbed_eof. Qed.
+Print Assumptions C12_trailing_layout_consumed.
+
+Example C12_skip_only_layout_runs :
+  skip_layout 20 [32; 59; 77; 79; 86; 13; 10; 9; 78; 79; 80; 32; 59; 120] = [78; 79; 80; 32; 59; 120]
+  /\ layoutE [32; 59; 77; 79; 86; 13; 10; 9] /\ layoutE [32; 59; 120].
+Proof.
+  split; [vm_compute; reflexivity|]. split.
+  - apply EWs; [reflexivity|]. apply (ECom 59 [77; 79; 86] 13 [10; 9]); try reflexivity; [repeat constructor|].
+    repeat (apply EWs; [reflexivity|]). constructor.
+  - apply EWs; [reflexivity|]. apply EComEof; [reflexivity | repeat constructor].
+Qed.
